@@ -338,6 +338,17 @@ def new_flag_left_up(sc, sysm):
   return lambda B, st: B.and_(B.eq(st["g.rejected"], B.const(1)), B.eq(st["new.run.flag"], B.const(1)), ended(sysm, B, st, 0))
 
 
+def survives_both_cancels(sc, sysm):
+  """cancel_events(signal) by another thread and then cancel_event(id) by the poster have both returned, yet the source's run flag is up
+  and its thread has not ended (or was not started yet): it goes on posting although it was cancelled twice; or somebody crashed"""
+  crash = any_crash(sc, sysm)
+  return lambda B, st: B.or_(crash(B, st), B.and_(B.eq(st["g.cancel_by_id_returned"], B.const(1)), B.eq(st["new.run.flag"], B.const(1)),
+                                                  B.not_(B.eq(st["new.thread.st"], B.const(2)))))
+
+
+cancelled_by_id = g_is("g.cancel_by_id_returned")
+
+
 # ---- an accepted timed post under every interleaving (C10) ----------------------------------------------------------------------------
 def timed_too_many(sc, sysm):
   n = sc.info["times"]
